@@ -316,4 +316,71 @@ def run_tables(st, out, gpath, genome):
                 pass
 
 
-OPS = {"reader.session": op_session}
+def op_synthetic(req):
+    """A result file of a given size written in the layout of MergeData (labels through the code's own
+    write_vlen_str_h5py), random values, a gene annotation with a given share of minus genes; loaded through
+    DensityData with the strand-aware view and compared, gene column by gene column, with the raw arrays."""
+    import pandas as pd
+    import transposon
+    from transposon.merge_data import MergeData
+    from transposon.gene_data import GeneData
+    from transposon.density_data import DensityData
+    n_o, n_s, n_w, n_g = req["shape"]
+    rng = np.random.default_rng(req.get("seed", 0))
+    d = tempfile.mkdtemp(prefix="vhsyn_")
+    try:
+        genes = ["g%06d" % i for i in range(n_g)]
+        pm = req.get("minus", 0.1)
+        strands = rng.choice(["+", "-", "."], size=n_g, p=[1 - pm - 0.05, pm, 0.05])
+        if req.get("minus_tail"):                  # at least one minus gene among the last genes of the file
+            strands[-1 - int(rng.integers(0, min(20, n_g)))] = "-"
+        starts = np.arange(n_g) * 1000 + 1
+        fr = pd.DataFrame({"Gene_Name": genes, "Chromosome": "ChrS", "Feature": "gene", "Start": starts.astype(float),
+                           "Stop": (starts + 499).astype(float), "Strand": strands, "Length": 500.0}).set_index("Gene_Name")
+        if req.get("shuffle_genes"):
+            fr = fr.sample(frac=1.0, random_state=int(req.get("seed", 0)))
+        gd = GeneData(fr, "G")
+        path = os.path.join(d, "G_ChrS.h5")
+        keys = {}
+        with h5py.File(path, "w") as f:
+            for lvl, n in (("O", n_o), ("S", n_s)):
+                for side in ("LEFT", "INTRA", "RIGHT"):
+                    key = getattr(MergeData, "_%s_%s" % (lvl, side))
+                    shape = (n, 1 if side == "INTRA" else n_w, n_g)
+                    ds = f.create_dataset(key, shape, dtype=MergeData.DTYPE, compression="lzf")
+                    ds[...] = rng.random(shape, dtype=np.float32)
+                    keys[(lvl, side)] = key
+            transposon.write_vlen_str_h5py(f, [100 * (i + 1) for i in range(n_w)], MergeData._WINDOWS)
+            transposon.write_vlen_str_h5py(f, genes, MergeData._GENE_NAMES)
+            transposon.write_vlen_str_h5py(f, ["ChrS"], MergeData._CHROME_ID)
+            transposon.write_vlen_str_h5py(f, ["O%03d" % i for i in range(n_o)], MergeData._ORDER_NAMES)
+            transposon.write_vlen_str_h5py(f, ["S%03d" % i for i in range(n_s)], MergeData._SUPERFAMILY_NAMES)
+        before = sha(path)
+        with h5py.File(path, "r") as f:
+            raw = {k: f[v][()] for k, v in keys.items()}
+        dd = DensityData(path, gd, LOG)
+        got = {("O", "LEFT"): dd.left_orders[()], ("O", "RIGHT"): dd.right_orders[()], ("O", "INTRA"): dd.intra_orders[()],
+               ("S", "LEFT"): dd.left_supers[()], ("S", "RIGHT"): dd.right_supers[()], ("S", "INTRA"): dd.intra_supers[()]}
+        minus = np.array([fr.loc[g, "Strand"] == "-" for g in genes])
+        bad = np.zeros(n_g, dtype=bool)
+        for lvl in ("O", "S"):
+            exp_l = np.where(minus[None, None, :], raw[(lvl, "RIGHT")], raw[(lvl, "LEFT")])
+            exp_r = np.where(minus[None, None, :], raw[(lvl, "LEFT")], raw[(lvl, "RIGHT")])
+            for exp, side in ((exp_l, "LEFT"), (exp_r, "RIGHT"), (raw[(lvl, "INTRA")], "INTRA")):
+                g_ = got[(lvl, side)]
+                if g_.shape != exp.shape:
+                    return {"ok": True, "n_bad_genes": n_g, "first_bad": "shape %s vs %s" % (g_.shape, exp.shape), "raw_unchanged": sha(path) == before,
+                            "n_minus": int(minus.sum())}
+                bad |= (g_ != exp).any(axis=(0, 1))
+        idx = np.nonzero(bad)[0]
+        try:
+            dd.data_frame.close()
+        except Exception:
+            pass
+        return {"ok": True, "n_bad_genes": int(bad.sum()), "first_bad": None if not len(idx) else {"gene_position": int(idx[0]), "strand": str(strands[idx[0]])},
+                "raw_unchanged": sha(path) == before, "n_minus": int(minus.sum()), "values_per_array": int(n_s * n_w * n_g)}
+    finally:
+        shutil.rmtree(d, ignore_errors=True)
+
+
+OPS = {"reader.session": op_session, "reader.synthetic": op_synthetic}
